@@ -88,6 +88,9 @@ var c19Subjects = []c19Subj{
 	{`"1"`, func() Expr { return S("1") }},
 	{`"1.0"`, func() Expr { return S("1.0") }},
 	{`[1,2,3]`, func() Expr { return Arr_(N("1"), N("2"), N("3")) }},
+	// nulls that were read from places that do not exist, at the very index a literal pattern spells
+	{"[9][1]", func() Expr { return Idx(Arr_(N("9")), N("1")) }},
+	{"{}[2]", func() Expr { return Idx(&Paren{X: &ObjLit{}}, N("2")) }},
 }
 
 type c19Spec struct {
@@ -195,7 +198,7 @@ func c19Check(c *fw.Ctx, s c19Spec, pats []c19Pat) *fw.Violation {
 func init() {
 	fw.Register(addTok(tokFramesC19, &fw.Prop{
 		ID: "C19",
-		Rule: "12 subjects (scalars of every kind, unset, arrays of several lengths and nestings, an object) x all case lists of <= 2 cases with <= 2 alternatives each and all lists of 3 single-alternative cases over the pattern alphabet x 7 body kinds (a block left by continue / next, a block that creates new names -- gone afterwards, expression using the bound names, block with a trace, tracing call, a body that runs three further matches -- new name, array pattern, shadowing -- before using the names again, a body that calls matching / recursing functions); " +
+		Rule: "17 subjects (scalars of every kind, unset, arrays of several lengths and nestings, an object) x all case lists of <= 2 cases with <= 2 alternatives each and all lists of 3 single-alternative cases over the pattern alphabet x 7 body kinds (a block left by continue / next, a block that creates new names -- gone afterwards, expression using the bound names, block with a trace, tracing call, a body that runs three further matches -- new name, array pattern, shadowing -- before using the names again, a body that calls matching / recursing functions); " +
 			"every case list of <= 3 single-alternative cases is also run as ONE match site over the sequence of all subjects (forward and reversed); outer variables named like the pattern names exist, so leaking or clobbering a binding is visible; oracle: DESIGN.md 3.17 through the reference interpreter (selected case, bindings, value, and the trace shows that no later pattern or body ran); " +
 			"a state is (subject, first-case pattern, selected?); non-trivial = (subject, pattern) pairs that match",
 		Plan: func(t fw.Tier) int { return len(c19Patterns(t == fw.Thorough)) * len(c19Subjects) },
